@@ -36,3 +36,12 @@ package utils
 //@   requires its.mutex != nil && its.ctx != nil
 //@   ensures[reports-success-exactly-when-the-mutex-was-taken] its.mutex.$taken == old(its.mutex.$taken) + (result ? 1 : 0)
 //@   modifies *
+
+// RedisLock.Unlock: the handler releases its lock AFTER the reply has been sent (deferred in finalize), when the
+// request's context may already be cancelled; the release must therefore not be tied to that context — a release that
+// is refused leaves the (collection, key) locked until the lease expires and every following request of the datatype
+// fails to lock. Structural: the entry block calls the unconditional release of the redsync mutex.
+//@ func (*RedisLock).Unlock
+//@   props C12
+//@   structural-only calls the redsync library, which is outside the contracts
+//@   calls-in-entry Mutex).Unlock
